@@ -6,6 +6,7 @@ import (
 	"flag"
 	"fmt"
 	"os"
+	"reflect"
 	"runtime/pprof"
 	"sort"
 	"strconv"
@@ -36,7 +37,7 @@ type config struct {
 	pkgs     []*bridge.Pkg
 }
 
-func (c *config) thorough() bool { return c.tier == "thorough" }
+func (c *config) thorough() bool  { return c.tier == "thorough" }
 func (c *config) mine(i int) bool { return i%c.nshard == c.shard }
 
 // Main is the entry point of the generated wl-gen binary.
@@ -177,6 +178,9 @@ func build(t target, d *dynamicpb.Message) (any, error) {
 	g := t.pkg.New(d.Descriptor().FullName())
 	if err := t.pkg.FromDynamic(d, g); err != nil {
 		return nil, err
+	}
+	if emptyNonNil {
+		pokeEmpty(reflect.ValueOf(g), d.Descriptor(), 0)
 	}
 	return g, nil
 }
